@@ -1281,3 +1281,70 @@ Section Levels.
     apply (roundtrip_unpack (compress_at (zstd_level env)) decompress); auto.
   Qed.
 End Levels.
+
+(* ------------------------------------------------------------------ histories of packs *)
+Definition op_objs (op : pack_op) : list (list N * option N * list N) :=
+  map (fun o => (fst (fst o), snd (fst o), fst (snd o))) (fst (fst op)).
+
+Section Histories.
+  Variable compress : list N -> list N.
+  Variable decompress : list N -> option (list N).
+  Hypothesis zstd_roundtrip : forall x, decompress (compress x) = Some x.
+
+  Lemma put_sources_ok objs : forall w w',
+    put_sources compress w objs = Some w' ->
+    w' = fold_left (fun w o => put_object compress w (fst (fst o)) (snd o) (snd (fst o)))
+                   (map (fun o => (fst (fst o), snd (fst o), fst (snd o))) objs) w.
+  Proof.
+    induction objs as [|[[name mode] src] objs IH]; intros w w' H; cbn [put_sources] in H.
+    - inversion H. reflexivity.
+    - destruct (read_source src) as [c|] eqn:E; [|discriminate].
+      unfold read_source in E. destruct (snd src); [discriminate|]. inversion E; subst.
+      apply IH in H. cbn [map fold_left fst snd]. exact H.
+  Qed.
+
+  Lemma pack_one_is_cache_write op bs :
+    pack_one compress op = Some bs -> bs = cache_write compress (op_objs op) (snd (fst op)) (snd op).
+  Proof.
+    unfold pack_one. destruct (put_sources compress [] (fst (fst op))) as [w|] eqn:E; [|discriminate].
+    intro H. inversion H. apply put_sources_ok in E. unfold cache_write, cache_members, op_objs. now rewrite E.
+  Qed.
+
+  (* a failed read never produces an entry *)
+  Lemma pack_one_fails op :
+    (exists o, In o (fst (fst op)) /\ snd (snd o) <> None) -> pack_one compress op = None.
+  Proof.
+    intros (o & Hin & Hf). unfold pack_one.
+    assert (G : forall objs w, In o objs -> put_sources compress w objs = None).
+    { induction objs as [|[[name mode] src] objs IH]; intros w H; [destruct H|]. cbn [put_sources].
+      destruct H as [<-|H].
+      - unfold read_source. cbn [snd] in *. destruct (snd src); [reflexivity|congruence].
+      - destruct (read_source src); [now apply IH|reflexivity]. }
+    pose proof (G _ [] Hin) as E. destruct op as [[objs so] se]. cbn [fst snd] in *. now rewrite E.
+  Qed.
+
+  (* whatever the thread packed or failed to pack before: an entry that IS produced unpacks to its own inputs *)
+  Theorem history_roundtrip ops i op bs reqs :
+    nth_error ops i = Some op -> nth_error (pack_history compress ops) i = Some (Some bs) ->
+    objs_ok (op_objs op) ->
+    writable (cache_members compress (op_objs op) (snd (fst op)) (snd op)) = true ->
+    no_z64_locator bs = true ->
+    map fst reqs = map obj_name (op_objs op) ->
+    unpack decompress bs reqs
+    = UHit (snd (fst op)) (snd op)
+           (map (fun o => Some (Some (perm_of (obj_mode o)), obj_content o)) (op_objs op)).
+  Proof.
+    intros Hop Hres Hok Hw Hz Hreqs. unfold pack_history in Hres.
+    rewrite nth_error_map, Hop in Hres. cbn in Hres. inversion Hres as [Hp].
+    apply pack_one_is_cache_write in Hp. subst bs.
+    apply (roundtrip_unpack compress decompress); auto.
+  Qed.
+
+  (* and the i-th result does not depend on the rest of the history at all *)
+  Theorem history_independent ops1 ops2 op :
+    nth_error (pack_history compress (ops1 ++ op :: ops2)) (length ops1) = Some (pack_one compress op).
+  Proof.
+    unfold pack_history. rewrite map_app. cbn [map].
+    rewrite nth_error_app2 by (rewrite map_length; lia). rewrite map_length, Nat.sub_diag. reflexivity.
+  Qed.
+End Histories.
